@@ -247,6 +247,8 @@ func runC05(c *Ctx, r *Report) {
 	indexKeys(c, r, "R-C05.8")
 	r.Doc("R-C05.10", "every store to the log's index, heads, predecessor index and clock happens under the log's write lock (two appends under a shared lock overwrite each other's head and lose an entry from the views)")
 	importRules(c, r, "C13", []string{"R-C13.1"}, "R-C05.10")
+	r.Doc("R-C05.11", "Entry.Copy builds the copy field by field (or replaces every reference-typed field of a struct copy on every path): the copy shares no map or clock with the original")
+	entryCopyFieldwise(c, r, "R-C05.11")
 	r.Doc("R-C05.9", "a copied entry shares no mutable map or clock object with its original: Copy stores a freshly made map and a fresh clock (the link-encrypting codec and the signer write into the copy's additional data)")
 	{
 		cp := p.FuncI("entry", "Entry", "Copy")
